@@ -16,7 +16,7 @@ CHECKS = {
     "C01": ("model_checking", K_TECH,
             "BFS over histories of encrypt/decrypt (long-lived and per-request sessions of two processes), clock ticks across the precision / revoke-check / expiry thresholds, out-of-band revocation, restart and session close, for several cache configurations; on every transition decrypt results are compared with the original payload and in every state every catalogued record is decrypted by a fresh SDK factory and by an independent reference decryptor over the metastore snapshot. Fixed mini-runs add 1 MiB / 5 MiB payloads and factories configured with different AWS KMS regions (both plugins). Plus the fault space (once the faults stop, the record decrypts again), region-suffix and Store/Load sequences, and a narrow-alphabet deep history configuration. Sequences over factories that share one real DynamoDB metastore object (eventually consistent fake).", "6/C01"),
     "C03": ("model_checking", K_TECH + "; AEAD/KMS/allocator call monitors",
-            "The same history space with monitors on every AEAD, KMS and secret-allocation call: one fresh data key per encrypt used once and wrapped once, no (key, nonce) repeated in a history (deterministic logged random source), payload only under data keys, data keys only under the partition's IK, IKs only under the SK, SK only to the KMS, and a byte-window leak scan of records, rows and log lines. The log lines of every operation - decrypts and failing operations of the fault space included - are scanned for plaintext key / payload bytes (raw, hex, base64, decimal). The AWS KMS plugins are run with a logger installed: nothing they log while wrapping / unwrapping contains the system key or a data-key plaintext. Concurrent encrypts and racing creators over the real metastore objects: a record whose named rows are stored is opened by that stored chain.", "6/C03"),
+            "The same history space with monitors on every AEAD, KMS and secret-allocation call: one fresh data key per encrypt used once and wrapped once, no (key, nonce) repeated in a history (deterministic logged random source), payload only under data keys, data keys only under the partition's IK, IKs only under the SK, SK only to the KMS, and a byte-window leak scan of records, rows and log lines. The log lines of every operation - decrypts and failing operations of the fault space included - are scanned for plaintext key / payload bytes (raw, hex, base64, decimal). The AWS KMS plugins are run with a logger installed: nothing they log while wrapping / unwrapping contains the system key or a data-key plaintext. Concurrent encrypts and racing creators over the real metastore objects: a record whose named rows are stored is opened by that stored chain. Payloads live in a larger scratch buffer that the caller overwrites after Encrypt: the returned record must not share storage with it.", "6/C03"),
     "C04": ("model_checking", K_TECH + "; deviation-bounded fault enumeration on expiry timelines",
             "The same history space; on every encrypt transition the named IK's age, the parent SK of every IK row written, and the time since the parent SK expired are computed from row stamps and the virtual clock, independently of the SDK's predicates; plus timelines of a long-lived session around the key lifetime with every placement of up to 2-3 failing metastore reads / KMS unwraps (while writes are accepted no record is handed out under an expired key). A narrow-alphabet configuration (one long-lived session, a second partition ageing the system key, three ticks, revocations) is searched two levels deeper.", "6/C04"),
     "C05": ("model_checking", K_TECH + "; deviation-bounded fault enumeration on revocation timelines",
@@ -39,7 +39,7 @@ CHECKS = {
 
 CHECKS.update({
     "C02": ("fault_enumeration", "deviation-bounded exhaustive enumeration of environment faults (explorer with environment choice points) on the real SDK",
-            "One encrypt from each prepared start state (cold, warm, rotating, revoked IK/SK, SK-only) with every placement of up to 2 (thorough: 3) faults over the metastore (error, false duplicate, error-after-write) and KMS calls it makes; a returned record must name rows present in the store snapshot taken at that instant and be decryptable by the independent reference from snapshot + KMS alone (= crash after return); after the faults stop the next encrypt must succeed. Region-suffixed key ids and a cancelled caller context (during any call) are part of the space. Plus schedules: two sessions of one factory encrypt at the same time over one real metastore object (DynamoDB plugins, memory): durable chain at return, fresh-process decrypt.", "6/C02"),
+            "One encrypt from each prepared start state (cold, warm, rotating, revoked IK/SK, SK-only) with every placement of up to 2 (thorough: 3) faults over the metastore (error, false duplicate, error-after-write) and KMS calls it makes; a returned record must name rows present in the store snapshot taken at that instant and be decryptable by the independent reference from snapshot + KMS alone (= crash after return); after the faults stop the next encrypt must succeed. Region-suffixed key ids and a cancelled caller context (during any call) are part of the space. Plus schedules: two sessions of one factory encrypt at the same time over one real metastore object (DynamoDB plugins, memory): durable chain at return, fresh-process decrypt. A slow metastore / KMS call during which the clock crosses a creation-stamp bucket is one more alternative at every call.", "6/C02"),
     "C10": ("fault_enumeration", "deviation-bounded exhaustive enumeration of faults with retained-buffer inspection",
             "The fault space extended with AEAD and secret-allocation failures: the spies retain every plaintext slice they handed out (KMS unwrap, AEAD key unwraps, the buffer given to SecretFactory.New) and all must be zero when the operation returns; plus the AWS KMS plugin product checking GenerateDataKey / Decrypt plaintext. The caller may cancel its context during any metastore / KMS call (which then answers normally). Both real secret factories (shadow page table) wipe the buffer handed to New; encrypt + cold decrypt through the SDK with them leave no unwrapped key readable.", "6/C10"),
     "C11": ("model_checking", "stateless schedule exploration (preemption-bounded DFS) over a shadow page table + exhaustive operation sequences on real pages observed through /proc/self/smaps",
@@ -47,13 +47,13 @@ CHECKS.update({
     "C12": ("fault_enumeration", "deviation-bounded exhaustive enumeration of failing memory primitives over a shadow page table",
             "Scripts of New/CreateRandom/WithBytes/nested/WithBytesFunc/Reader/Close/Close for both implementations with every placement of up to 2 (thorough: 3) failing primitives (Alloc, Lock, Protect, Unlock, Free, random source): error instead of a degraded secret, no page of a failed creation left mapped or locked, secret bytes zero at unlock, failed open leaves the page inaccessible and the secret usable, failed Close retryable, in-use counter balanced. Reads between a failed Close and its retry are refused or exact. Plus schedules: a reader inside its callback and a Close waiting for it, every interleaving x every placement of 1-2 failing primitives (nobody left blocked, Close retryable).", "6/C12"),
     "C13": ("model_checking", "explicit-state breadth-first search (closed state space) over metastore operations against a reference table, through semantic fakes",
-            "BFS over Store/Load/LoadLatest on 2 ids x 2 (thorough: 3) stamps x 4 record variants until no new table is reachable, for the memory, SQL (3 dialects + default) and DynamoDB v1/v2 metastores (table name / region suffix variants); the SQL fake parses and executes the statements under the documented schema, the DynamoDB fake evaluates conditions, key conditions, projection, ordering and is eventually consistent unless ConsistentRead is set; every slot is read back after every transition; DynamoDB variants with transient read errors (a retry must not become a stale read); plus every interleaving of 2-3 concurrent Stores of one key (and a reader) on the in-memory metastore. Plus concurrent callers (two readers of different ids, one storer) on one DynamoDB metastore object of each plugin, the transport reading requests when they are delivered. A SQL result set that breaks while it is fetched may fail the read but never reports no-such-record; two concurrent storers of different keys.", "6/C13"),
+            "BFS over Store/Load/LoadLatest on 2 ids x 2 (thorough: 3) stamps x 4 record variants until no new table is reachable, for the memory, SQL (3 dialects + default) and DynamoDB v1/v2 metastores (table name / region suffix variants); the SQL fake parses and executes the statements under the documented schema, the DynamoDB fake evaluates conditions, key conditions, projection, ordering and is eventually consistent unless ConsistentRead is set; every slot is read back after every transition; DynamoDB variants with transient read errors (a retry must not become a stale read); plus every interleaving of 2-3 concurrent Stores of one key (and a reader) on the in-memory metastore. Plus concurrent callers (two readers of different ids, one storer) on one DynamoDB metastore object of each plugin, the transport reading requests when they are delivered. A SQL result set that breaks while it is fetched may fail the read but never reports no-such-record; two concurrent storers of different keys. The table search is repeated with creation stamps before the epoch and ending at zero for one implementation of each kind.", "6/C13"),
     "C14": ("model_checking", "stateless schedule exploration with context switches placed at external calls (unbounded for 2 processes) + happens-before caching",
             "2-3 processes with their own factories race one encrypt each (thorough: two) over one spy metastore/KMS from cold, SK-only, expired, revoked-IK and revoked-SK states (plus a clock crossing of the precision bucket): every returned record names stored rows and is decryptable by every process and by the reference, unsaved keys of refused inserts are released, the store only grew; the same 2-process race over the SDK's own instrumented MemoryMetastore with preemptions inside its Store/Load bodies. The real-store race also runs over both DynamoDB plugins (eventually consistent fake) and a fresh process must decrypt every record.", "6/C14"),
     "C16": ("model_checking", "stateless schedule exploration of the real code under a controlled scheduler (preemption-bounded DFS + happens-before state caching)",
             "2-3 goroutines get/use/close cached sessions over more partitions than the session cache holds (capacity 1-2, all policies), including expiry while held and factory close racing the holders' closes; the cache's event goroutine and the Remove goroutines are threads of the exploration: held sessions keep working, gets share one session while cached, evicted sessions are torn down exactly once after their last holder, everything is released and no goroutine is left after factory close.", "6/C16"),
     "C17": ("fault_enumeration", "exhaustive product of regional failure patterns over fake regional KMS endpoints on both real plugins",
-            "n = 1..3 (thorough: 4) regions, every preferred region, every subset failing GenerateDataKey and/or Encrypt at wrap time, every {ok, Decrypt fails, wrong data key} assignment at unwrap time, the four v1/v2 pairings and envelopes with an entry removed: success conditions, exactly one entry per succeeded region, identical bytes, preferred-first / at-most-once / stop-at-first-success call order, data-key plaintext wiped; the regional endpoints reject requests naming another region's key; plus every interleaving (preemption bound 2-3) of the fan-out goroutines of EncryptKey with 3-4 regions on both (instrumented) plugins. Every iteration order of the region map (n!) x every preferred region through the public constructors. The local AEAD step of the plugins is made to fail (wrap / unwrap): an error is reported and the data-key plaintext is wiped.", "6/C17"),
+            "n = 1..3 (thorough: 4) regions, every preferred region, every subset failing GenerateDataKey and/or Encrypt at wrap time, every {ok, Decrypt fails, wrong data key} assignment at unwrap time, the four v1/v2 pairings and envelopes with an entry removed: success conditions, exactly one entry per succeeded region, identical bytes, preferred-first / at-most-once / stop-at-first-success call order, data-key plaintext wiped; the regional endpoints reject requests naming another region's key; plus every interleaving (preemption bound 2-3) of the fan-out goroutines of EncryptKey with 3-4 regions on both (instrumented) plugins. Every iteration order of the region map (n!) x every preferred region through the public constructors. The local AEAD step of the plugins is made to fail (wrap / unwrap): an error is reported and the data-key plaintext is wiped. Regional failures shaped like timeouts / cancellations of the single request (every region in turn, every shape) must not stop the fallback.", "6/C17"),
     "C18": ("exploration", "exhaustive product of input shapes checked in both directions against an independent reference implementation written from the documentation",
             "Payload shapes x partition ids x timestamps x revoked x plain/suffixed hierarchy x static/AWS KMS x storage channel (memory, SQL text, DynamoDB v1/v2 items): the reference decodes the bytes the SDK stored with its own decoders (exact JSON keys, base64, ciphertext||tag||nonce, key-id format) and decrypts; the SDK decrypts rows and records the reference wrote; protobuf mapping through the real sidecar handler; v1<->v2 DynamoDB item exchange.", "6/C18"),
     "C20": ("model_checking", K_TECH + "; repetition probes from every state",
